@@ -65,8 +65,30 @@ def _kind_kw(w: World, kind):
 
 
 # ------------------------------------------------------------------ application
+class OpTimeout(Exception):
+    """the library call did not return within the time limit (non-termination)"""
+
+
+def _alarm(signum, frame):
+    raise OpTimeout("library call did not terminate within 5 s")
+
+
 def apply_real(w: World, op: tuple):
-    """Run `op` on the real tree.  Returns ('ok', result) or ('exc', exception)."""
+    """Run `op` on the real tree under a watchdog.  Returns ('ok', result) or ('exc', exception)."""
+    import signal
+
+    old = signal.signal(signal.SIGALRM, _alarm)
+    signal.setitimer(signal.ITIMER_REAL, 5.0)
+    try:
+        return _apply_real(w, op)
+    except OpTimeout as e:
+        return "exc", e
+    finally:
+        signal.setitimer(signal.ITIMER_REAL, 0)
+        signal.signal(signal.SIGALRM, old)
+
+
+def _apply_real(w: World, op: tuple):
     t = op[0]
     try:
         if t == "add":
@@ -139,8 +161,14 @@ def apply_real(w: World, op: tuple):
         if t == "clear_meta":
             return "ok", w.nodes[op[1]].clear_meta(op[2])
         if t == "update_meta":
-            return "ok", w.nodes[op[1]].update_meta(dict(op[2]), replace=op[3])
+            # the caller's dict is a shared 'defaults' object, re-used by later calls of the history
+            cache = w.__dict__.setdefault("_dicts", {})
+            d = cache.setdefault(op[2], dict(op[2]))
+            w.last_values = (d, dict(d))
+            return "ok", w.nodes[op[1]].update_meta(d, replace=op[3])
         raise KeyError(t)
+    except OpTimeout:
+        raise
     except RecursionError as e:  # pragma: no cover - reported as an exception like any other
         return "exc", e
     except Exception as e:  # noqa: BLE001
@@ -305,6 +333,14 @@ def compare(w: World) -> list[tuple[str, str]]:
 
 
 def step(w: World, op: tuple) -> list[tuple[str, str]]:
+    """step_() guarded: a structure the oracle cannot even read is a wf violation, not a checker crash."""
+    try:
+        return step_(w, op)
+    except (AttributeError, TypeError, RecursionError, RuntimeError) as e:
+        return [("wf.S3", f"tree structure unreadable after the operation: {type(e).__name__}: {e}")]
+
+
+def step_(w: World, op: tuple) -> list[tuple[str, str]]:
     """Apply `op` to both sides and return the list of (clause, text) violations.
     Clauses: effect (C04/C07), wf.S*/wf.I*/wf.U (C01/C02/C03), refuse.missing (C03/C13),
     refuse.kind, refuse.changed (C13), exc.unexpected (C04/C13), source.changed (C07)."""
@@ -342,6 +378,15 @@ def step(w: World, op: tuple) -> list[tuple[str, str]]:
 
 def check_result(w: World, op, m_res, r_res) -> list[tuple[str, str]]:
     t = op[0]
+    if t == "update_meta":
+        d, snapshot = w.last_values
+        out = []
+        if d != snapshot:
+            out.append(("effect", f"update_meta() modified the caller's dict: {d!r} (was {snapshot!r})"))
+        n = w.nodes[op[1]]
+        if n._meta is d:
+            out.append(("effect", "update_meta() stored the caller's dict object itself: later edits of the node's metadata and of the dict (or of other nodes given the same dict) leak into each other"))
+        return out
     if t in ("add", "append_child", "prepend_child", "prepend_sibling", "append_sibling", "addnode", "addnode_x", "copy_to"):
         if isinstance(m_res, MNode):
             if r_res is None or w.uid.get(id(r_res)) != m_res.uid:
